@@ -41,6 +41,8 @@ type Job struct {
 	Tracer []drive.TracerScenario `json:"tracer"`
 	// Mode "cancel": cancel point (number of traces) per schedule index, -1 = reference run
 	CancelAt []int `json:"cancel_at"`
+	// Mode "builds"
+	Builds []drive.BuildSpec `json:"builds"`
 	// Mode "values"
 	Values []drive.ValueScenario `json:"values"`
 	// Mode "set"
@@ -127,6 +129,9 @@ func WorkerMain(args []string) int {
 			p := job.Programs[sch.Prog]
 			log := drive.CancelRun(i, sch.Prog, p, job.CancelAt[i], job.Opts.driveOpts(), fmt.Sprintf("c%d-%d", os.Getpid(), i))
 			line, _ = json.Marshal(RunLog{Run: i, Log: log})
+		} else if job.Opts.Mode == "builds" {
+			vr := drive.BuildRun(i, job.Builds[i])
+			line, _ = json.Marshal(RunLog{Run: i, Log: []drive.Rec{}, VRes: &vr})
 		} else if job.Opts.Mode == "values" {
 			vr := drive.ValueRun(i, job.Values[i])
 			line, _ = json.Marshal(RunLog{Run: i, Log: []drive.Rec{}, VRes: &vr})
